@@ -40,13 +40,20 @@ def definition():
     xdoc.add_param(d, "SELF", uint(8))
     xdoc.add_container(d, "SELC", [("p", "SELF")], base="ROOT", crit_list=[cmp("APID", "==", 5)], abstract=True)
     xdoc.add_container(d, "SELOK", [("p", "B")], base="SELC", crit_list=[cmp("SELF", "==", 0)])
+    # APID 6: a child selected by a boolean expression that compares a float-calibrated parameter (and a boolean one) with literals
+    fc = xdoc.ptype_num("int", xdoc.numeric_enc("int", 8), {"default": poly([(rat(1, 2), 0), (rat(1, 2), 1)]), "context": []})
+    xdoc.add_param(d, "FC", fc)
+    xdoc.add_param(d, "FLAG", xdoc.ptype_num("bool", xdoc.numeric_enc("int", 8)))
+    xdoc.add_container(d, "CALC", [("p", "FC"), ("p", "FLAG")], base="ROOT", crit_list=[cmp("APID", "==", 6)])
+    lit = lambda l, op, n: {"k": "cond", "l": l, "lcal": True, "op": op, "rk": "lit", "r": "", "rcal": False, "lit": crit.lit_num(False, n)}
+    xdoc.add_container(d, "CALCHI", [("p", "A")], base="CALC", crit_list=[{"k": "and", "conds": [lit("FC", ">=", 2), lit("FLAG", "==", 1)], "groups": []}])
     xdoc.add_container(d, "AMB1", [("p", "M"), ("p", "N")], base="ROOT", crit_list=[cmp("APID", "==", 3)])
     xdoc.add_container(d, "AMB2", [("p", "A")], base="ROOT", crit_list=[cmp("APID", ">=", 3), cmp("APID", "<", 5)])
     return d
 
 
 CLASSES = {"sel_ok": (5, "sel0"), "sel_unrec": (5, "sel1"), "exact": (1, 2), "inexact_long": (1, 3), "inexact_short": (1, 1), "var": (2, None), "ambiguous": (3, 2), "only_amb2": (4, 1),
-           "deadend": (9, 2)}
+           "deadend": (9, 2), "calc": (6, 3)}
 
 
 def make_pool(rng, per_class):
@@ -63,6 +70,8 @@ def make_pool(rng, per_class):
             body = bytearray(rng.getrandbits(8) for _ in range(n_))
             if apid == 1:
                 body[0] = (2, 1, 0, 1, 7, 2, 1, 3)[len(pool) % 8]      # A: fallback calibrator only / both / none
+            if apid == 6:
+                body[0], body[1] = (9, 1, 3, 200)[len(pool) % 4], (1, 1, 0, 1)[len(pool) % 4]
             pool.append({"cls": cname, "bytes": list(defs.mk_packet(bytes(body), apid=apid, seq=seq))})
     return pool
 
